@@ -118,10 +118,11 @@ enum Dmg {
     SnapHeaderSize,
     SnapHeader,
     SnapHeaderCounters,
+    SnapHeaderReframe,
     SnapData,
 }
 const WAL_DMG: [Dmg; 15] = [Dmg::FlipTxnId, Dmg::FlipRandom, Dmg::FlipLenPrefix, Dmg::FlipTagOrHeader, Dmg::FlipKey, Dmg::FlipValue, Dmg::FlipHmac, Dmg::Overwrite, Dmg::Truncate, Dmg::AppendGarbage, Dmg::DuplicateRecord, Dmg::Transplant, Dmg::LenZero, Dmg::LenHuge, Dmg::LenMax];
-const SNAP_DMG: [Dmg; 8] = [Dmg::FlipRandom, Dmg::SnapHeaderSize, Dmg::SnapHeader, Dmg::SnapHeaderCounters, Dmg::SnapHeaderCounters, Dmg::SnapData, Dmg::Truncate, Dmg::AppendGarbage];
+const SNAP_DMG: [Dmg; 10] = [Dmg::FlipRandom, Dmg::SnapHeaderSize, Dmg::SnapHeader, Dmg::SnapHeaderCounters, Dmg::SnapHeaderCounters, Dmg::SnapHeaderReframe, Dmg::SnapHeaderReframe, Dmg::SnapData, Dmg::Truncate, Dmg::AppendGarbage];
 
 struct Built {
     image: DirImage,
@@ -337,6 +338,32 @@ fn damage(rng: &mut Rng, img: &mut DirImage, d: Dmg, file_idx: usize, foreign: &
                 let at = 4 + rng.urange(5, 11);
                 flip(bytes, at, rng);
                 return (None, true, at);
+            }
+            (None, true, 0)
+        }
+        Dmg::SnapHeaderReframe => {
+            // a header that still frames and decodes but lies about sizes (length prefix and field
+            // rewritten together - what a multi-byte corruption or a foreign writer leaves behind)
+            if bytes.len() > 8 {
+                let hs = u32::from_le_bytes([bytes[0], bytes[1], bytes[2], bytes[3]]) as usize;
+                if 4 + hs <= bytes.len() {
+                    if let Ok(mut h) = postcard::from_bytes::<saorsa_core::persistent_state::SnapshotHeader>(&bytes[4..4 + hs]) {
+                        match rng.below(4) {
+                            0 => h.total_size = u64::MAX,
+                            1 => h.total_size = 512 << 20,
+                            2 => h.entry_count = u64::MAX,
+                            _ => h.total_size = rng.range(1 << 24, 1 << 40),
+                        }
+                        if let Ok(nh) = postcard::to_stdvec(&h) {
+                            let rest = bytes[4 + hs..].to_vec();
+                            let mut out = (nh.len() as u32).to_le_bytes().to_vec();
+                            out.extend(nh);
+                            out.extend(rest);
+                            *bytes = out;
+                            return (None, true, 4);
+                        }
+                    }
+                }
             }
             (None, true, 0)
         }
